@@ -9,6 +9,7 @@ import (
 	"go/constant"
 	"go/token"
 	"go/types"
+	"os"
 	"sort"
 	"strings"
 
@@ -172,7 +173,7 @@ func (x *FnIndex) fieldCell(al *ssa.Alloc, fa *ssa.FieldAddr) *ssa.Alloc {
 func (x *FnIndex) structEscapes(v ssa.Value, isPtr bool, d int) bool {
 	// isPtr: v is a pointer to the struct (the variable's address or a copy of it);
 	// otherwise v is the address of a cell that holds such a pointer
-	if d > 6 {
+	if d > 24 {
 		return true
 	}
 	r := v.Referrers()
@@ -225,6 +226,9 @@ func (x *FnIndex) structEscapes(v ssa.Value, isPtr bool, d int) bool {
 				}
 			}
 		default:
+			if os.Getenv("GVERIF_DEBUG_ESC") != "" {
+				fmt.Printf("DEBUG escape via %T %v in %v\n", u, u, u.Parent())
+			}
 			return true
 		}
 	}
@@ -317,7 +321,8 @@ func (x *FnIndex) ResolveAddr(v ssa.Value) ssa.Value {
 	x.raBusy[v] = true
 	r := x.resolveAddr(v)
 	delete(x.raBusy, v)
-	if x.ready {
+	// only a result that did not depend on a value still being resolved is kept
+	if x.ready && len(x.raBusy) == 0 {
 		if x.raCache == nil {
 			x.raCache = map[ssa.Value]ssa.Value{}
 		}
@@ -1752,6 +1757,7 @@ type PVal struct {
 	Outside bool      // stored by another function (a deferred or spawned literal)
 	Store   *ssa.Store
 	Leaf    *ssa.Store // the store that first put the value into a variable (Store: into the variable read)
+	ZeroOf  *ssa.Alloc // for the zero value (V == nil): the variable that was never assigned
 }
 
 // PossibleValues lists what a value may be when it is a read of a local
@@ -1768,7 +1774,10 @@ func (x *FnIndex) PossibleValues(v ssa.Value) []PVal {
 	// variables allow (`v, ok := lookup(); if ok { use(v) }` after inlining)
 	var out []PVal
 	for _, pv := range pvs {
-		if pv.Leaf != nil && !pv.Outside && pv.Leaf.Parent() == u.Parent() && !x.tokenReaches(u.Parent(), pv.Leaf, u, u) {
+		if pv.Leaf != nil && !pv.Outside && pv.Leaf.Parent() == u.Parent() && !x.tokenReaches(u.Parent(), pv.Leaf, nil, u, u) {
+			continue
+		}
+		if pv.V == nil && pv.ZeroOf != nil && pv.ZeroOf.Parent() == u.Parent() && x.localOnly(pv.ZeroOf) && !x.tokenReaches(u.Parent(), nil, pv.ZeroOf, u, u) {
 			continue
 		}
 		out = append(out, pv)
@@ -1799,7 +1808,7 @@ func (x *FnIndex) possibleValues(v ssa.Value, depth int) []PVal {
 			}
 		}
 		if zero {
-			out = append(out, PVal{})
+			out = append(out, PVal{ZeroOf: al})
 		}
 		for _, st := range x.stores[al] {
 			if st.Parent() != u.Parent() {
@@ -1841,7 +1850,7 @@ func (x *FnIndex) leafValues(v ssa.Value, depth int) []PVal {
 			}
 		}
 		if zero {
-			out = append(out, PVal{})
+			out = append(out, PVal{ZeroOf: al})
 		}
 		for _, st := range x.stores[al] {
 			if st.Parent() != u.Parent() {
@@ -1869,22 +1878,52 @@ func (x *FnIndex) ValuesAt(v ssa.Value, at ssa.Instruction) []PVal {
 	fn := at.Parent()
 	var out []PVal
 	for _, pv := range x.leafValues(v, 0) {
+		if pv.V == nil && pv.Store == nil && pv.ZeroOf != nil && pv.ZeroOf.Parent() == fn && x.localOnly(pv.ZeroOf) {
+			// the zero value of a variable: follows from its declaration like a stored value
+			if x.tokenReaches(fn, nil, pv.ZeroOf, at, v) {
+				out = append(out, pv)
+			}
+			continue
+		}
 		if pv.Store == nil || pv.Outside || pv.Store.Parent() != fn {
 			out = append(out, pv)
 			continue
 		}
-		if x.tokenReaches(fn, pv.Store, at, v) {
+		if x.tokenReaches(fn, pv.Store, nil, at, v) {
 			out = append(out, pv)
 		}
 	}
 	return out
 }
 
+// localOnly: the variable is only read and written by plain loads and stores of its own
+// function (no literal captures it any more, its address goes nowhere).
+func (x *FnIndex) localOnly(al *ssa.Alloc) bool {
+	if r := al.Referrers(); r != nil {
+		for _, u := range *r {
+			switch t := u.(type) {
+			case *ssa.Store:
+				if t.Addr != ssa.Value(al) {
+					return false
+				}
+			case *ssa.UnOp:
+				if t.Op != token.MUL {
+					return false
+				}
+			case *ssa.DebugRef:
+			default:
+				return false
+			}
+		}
+	}
+	return true
+}
+
 // tokenReaches: the value stored by `from` can be what `use` holds when `at`
 // executes. The search follows the value through loads, stores into other local
 // variables and conversions, forgets a variable when something else is stored
 // into it, and prunes branches on flag variables like pathExistsFlags.
-func (x *FnIndex) tokenReaches(fn *ssa.Function, from *ssa.Store, at ssa.Instruction, use ssa.Value) bool {
+func (x *FnIndex) tokenReaches(fn *ssa.Function, from *ssa.Store, zeroOf *ssa.Alloc, at ssa.Instruction, use ssa.Value) bool {
 	flags := x.flagCells(fn)
 	fidx := map[*ssa.Alloc]int{}
 	for i, f := range flags {
@@ -1906,7 +1945,16 @@ func (x *FnIndex) tokenReaches(fn *ssa.Function, from *ssa.Store, at ssa.Instruc
 		al, _ := x.ResolveAddr(a).(*ssa.Alloc)
 		return al
 	}
-	c0 := cellOf(from.Addr)
+	var c0 *ssa.Alloc
+	var startB *ssa.BasicBlock
+	startI := 0
+	if from != nil {
+		c0 = cellOf(from.Addr)
+		startB, startI = from.Block(), instrIdx(from)+1
+	} else {
+		c0 = zeroOf
+		startB, startI = zeroOf.Block(), instrIdx(zeroOf)+1
+	}
 	if c0 == nil {
 		return true
 	}
@@ -1943,7 +1991,7 @@ func (x *FnIndex) tokenReaches(fn *ssa.Function, from *ssa.Store, at ssa.Instruc
 	}
 	seen := map[string]bool{}
 	start := tok{map[*ssa.Alloc]bool{c0: true}, map[ssa.Value]bool{}}
-	work := []node{{from.Block(), instrIdx(from) + 1, 0, start}}
+	work := []node{{startB, startI, 0, start}}
 	steps := 0
 	for len(work) > 0 {
 		n := work[len(work)-1]
@@ -1968,6 +2016,13 @@ func (x *FnIndex) tokenReaches(fn *ssa.Function, from *ssa.Store, at ssa.Instruc
 				}
 			}
 			switch s := in.(type) {
+			case *ssa.Alloc:
+				// the declaration is executed again (a loop): a new variable, zero again
+				if from == nil && s == zeroOf {
+					t.cells[s] = true
+				} else {
+					delete(t.cells, s)
+				}
 			case *ssa.Store:
 				c := cellOf(s.Addr)
 				if c != nil {
@@ -2616,7 +2671,7 @@ func (x *FnIndex) flagCells(fn *ssa.Function) []*ssa.Alloc {
 	for _, b := range fn.Blocks {
 		for _, in := range b.Instrs {
 			al, ok := in.(*ssa.Alloc)
-			if !ok || al.Heap || len(x.stores[al]) == 0 {
+			if !ok || len(x.stores[al]) == 0 || (al.Heap && !x.localOnly(al)) {
 				continue
 			}
 			if bt, isB := al.Type().(*types.Pointer).Elem().Underlying().(*types.Basic); !isB || bt.Kind() != types.Bool {
